@@ -1211,7 +1211,7 @@ class Interp:
         except Violation:
             raise
         except SimHang as e:
-            self.fail('C01', 'hang', f'query: {e}')
+            self.fail(('C01', 'C06'), 'hang', f'query: {e}')
         except Exception as e:
             owner = ('C01', 'C05', 'C06') if 'deferred' in self.flags else (
                 'C01', 'C06')
@@ -1225,6 +1225,13 @@ class Interp:
 
     def _sweep(self, w, A, strict_cb):
         qtypes = [(-1, A.Root)] + sorted(A.classes.items())
+        if self.cfg.get('ladder'):
+            # the root, the bottom and the top of the ladder, the unrelated
+            # class: a walk that visits every *path* instead of every class
+            # does not come back within the budget
+            n = len(self.cfg['classes'])
+            qtypes = [q for q in qtypes if q[0] in (-1, 0, n - 2, n - 1)]
+            self.probes['ladder_of_diamonds'] += 1
         attached = {}           # class idx -> [(eid, inst)]
         for eid, row in self.ents.items():
             for c, i in row.items():
@@ -1520,6 +1527,22 @@ def gen_config(prop, rng):
     ncls = rng.randint(3, 8) if prop != 'C07' else rng.randint(1, 3)
     handler_p = {'C01': .4, 'C02': .8, 'C05': .6, 'C06': .3, 'C07': 0}[prop]
     classes = []
+    ladder = prop == 'C06' and rng.random() < .03
+    if ladder:
+        # a ladder of diamonds: A0; Bk(Ak), Ck(Ak), Ak+1(Bk, Ck) - the number
+        # of inheritance paths doubles with every rung - next to an
+        # unrelated root class Z
+        rungs = rng.randint(15, 17)
+        classes.append({'bases': [], 'deco': None})          # A0
+        top = 0
+        for _ in range(rungs):
+            classes.append({'bases': [top], 'deco': None})
+            classes.append({'bases': [top], 'deco': None})
+            classes.append({'bases': [len(classes) - 1, len(classes) - 2],
+                            'deco': None})
+            top = len(classes) - 1
+        classes.append({'bases': [], 'deco': None})          # Z
+        ncls = 0
     for i in range(ncls):
         if i == 0:
             bases = []
@@ -1554,7 +1577,10 @@ def gen_config(prop, rng):
             spec['late'] = True
         classes.append(spec)
     insts = []
-    for i in range(ncls):
+    if ladder:
+        insts = [0, len(classes) - 2, len(classes) - 1, len(classes) - 1, 1]
+        ncls = len(classes)
+    for i in range(ncls if not ladder else 0):
         insts += [i] * rng.choice([1, 2, 2, 3] if ncls <= 4 else [1, 1, 2])
     rng.shuffle(insts)
     insts = insts[:14]
@@ -1583,6 +1609,7 @@ def gen_config(prop, rng):
     if rng.random() < 1 / 3:
         faults = []
     return {'peq': prop == 'C07' and rng.random() < .25, 'many_procs': many,
+            'ladder': ladder,
             'peek': rng.random() < .4,
             'query_object': prop in ('C01', 'C06') and rng.random() < .04,
             'idgen': (rng.choice([2, 3, 4, 6])
